@@ -300,7 +300,19 @@ def worker(wseed, binary, budget_s):
                     res.violation("server-died/%s" % kind, "server exited %s during %s COUNT %s\n%s" % (srv.exit_status(), kind, count, srv.stderr_tail(1500)))
                     srv.restart()
                 else:
-                    res.violation("hang/%s" % kind, "%s COUNT %s: %r" % (kind, count, e))
+                    # the event loop is one thread: a scan that really hangs keeps every other client waiting too.
+                    # If a new connection is answered, the 30 s went by in the harness or the machine (a stalled VM,
+                    # seen once while a sandbox snapshot was being taken) - inconclusive, not a verdict
+                    try:
+                        probe = srv.client(timeout=30)
+                        alive = probe.cmd("PING") == resp.Status("PONG")
+                        probe.close()
+                    except Exception:
+                        alive = False
+                    if alive:
+                        res.inconclusive.append("%s COUNT %s: %r, but the server answers a new connection at once" % (kind, count, e))
+                    else:
+                        res.violation("hang/%s" % kind, "%s COUNT %s: %r" % (kind, count, e))
                 c = srv.client(timeout=30)
                 adv = srv.client(timeout=30)
                 continue
